@@ -81,3 +81,12 @@ package fileutil
 //@ func GetFlagFileContent [C16]
 //@ trusted reads and checks the flag file, decodes its content into msg
 //@ modifies pointee(msg)
+
+// gMWptr / gMWlen: the buffer last handed to MustWrite (used to say WHICH bytes a checksum was computed over)
+//@ ghost var gMWptr int
+//@ ghost var gMWlen int
+//@ func MustWrite [C14 C16]
+//@ trusted two-line body: w.Write(data), panics on error
+//@ modifies gMWptr, gMWlen
+//@ ghostset gMWptr := ptr(data)
+//@ ghostset gMWlen := len(data)
